@@ -3,6 +3,7 @@ CONSTANTS
   MaxLen = 0
   Adaptors = {"enumerate", "reverse"}
   Cats = {"lvalue", "const", "rvalue"}
+  Handoffs = {"direct", "copy", "move", "assign"}
 INVARIANTS VisitsAll WritesLand NoWritesElsewhere
 CONSTRAINT Track
 POSTCONDITION Report
